@@ -18,6 +18,11 @@ func init() {
 }
 
 func c15(c *Ctx) {
+	c.EveryIterationG("join/every-database-marked-for-a-new-replica", "http.(*Server).handlePostStream",
+		G(`^\(\(phi\(-1\) \+ 1\) < builtin\.len\(litefs\.\(\*Store\)\.DBs\(p0\.store\)\)\)$`, true),
+		func(in ssa.Instruction) bool { _, ok := in.(*ssa.MapUpdate); return ok }, 1,
+		"every database the primary knows - also an empty (dropped) one the replica has never seen - enters the initial dirty set of a connecting replica",
+		"a node that joins after a drop must still learn the tombstone position: after a fail-over to it the name would restart at TXID 1 and absent replicas would keep the dropped database")
 	{
 		p := c.P
 		ap := "litefs.(*DB).ApplyLTXNoLock"
